@@ -305,15 +305,9 @@ func (l *ExpandedLexer) nextToken() Token {
 			tok.Type = ARROW
 			tok.Literal = string(ch) + string(l.ch)
 			l.readChar()
-		} else if l.peekChar() == '-' {
-			// Handle -- for flags like --formal
-			l.readChar() // consume first -
-			l.readChar() // consume second -
-			// Now read the flag name
-			flagTok := l.readIdentifier()
-			tok.Type = flagTok.Type
-			tok.Literal = "--" + flagTok.Literal
 		} else {
+			// `--flag` is MINUS MINUS IDENT, as in compact source: the parser
+			// makes a flag parameter of it.
 			tok.Type = MINUS
 			tok.Literal = string(l.ch)
 			l.readChar()
